@@ -72,6 +72,8 @@ const (
 	cReferenceCompared
 	cDeadlinePassedStatus
 	cOverLimitRefused
+	cDuplexAfterCtxEnd
+	cUndecodablePassedOn
 	numCounters
 )
 
@@ -107,6 +109,8 @@ var counterNames = [...]string{
 	cReferenceCompared: "reach.final_state_compared_with_fresh_registration",
 	cDeadlinePassedStatus: "reach.final_status_after_deadline_passed_mid_call",
 	cOverLimitRefused: "reach.inflated_message_over_limit_refused_whole",
+	cDuplexAfterCtxEnd: "reach.two_goroutine_handler_both_called_after_context_end",
+	cUndecodablePassedOn: "reach.undecodable_message_error_returned_as_is",
 }
 
 func counterName(i int) string {
